@@ -1,0 +1,15 @@
+//go:build verif
+
+// Contracts for package websocket, read by /verif/govc (comment-only; compiled by nobody).
+package websocket
+
+//@ func validCloseCode
+//@   props C13
+//@   safety index slice nil div assert panic
+//@   ensures rfc: result == ((1000 <= code && code <= 1003) || (1007 <= code && code <= 1011) || (3000 <= code && code <= 4999))  // prop C13
+
+//@ func (*Conn).isMessageTooLarge
+//@   props C15
+//@   requires c.commonFields != nil
+//@   safety index slice nil div assert panic
+//@   ensures limit: result == (c.commonFields.MessageLengthLimit > 0 && len > c.commonFields.MessageLengthLimit)  // prop C15
